@@ -258,7 +258,7 @@ func entries() []entry {
 }
 
 // states of the published tree at the time the writer is parked
-var treeStates = []string{"routes", "never-written", "truncated", "shallow"}
+var treeStates = []string{"routes", "never-written", "truncated", "shallow", "verb-truncated"}
 
 func build(cfg config) *fox.Router { return buildState(cfg, "routes") }
 
@@ -283,6 +283,14 @@ func buildState(cfg config, state string) *fox.Router {
 		defer func() { _ = r.Updates(func(t *fox.Txn) error { return t.Truncate() }) }()
 	}
 	h := func(c fox.Context) { c.Writer().WriteHeader(200) }
+	if state == "verb-truncated" {
+		// routes under two verbs of the application's own, one of which is emptied by the very last commit before the
+		// experiment (the method root goes away; whatever the tree keeps per verb has just shrunk)
+		r.MustHandle("FOO", "/s/a", h)
+		r.MustHandle("FOO", "/p/{id}", h)
+		r.MustHandle("BAR", "/s/a", h)
+		defer func() { _ = r.Updates(func(t *fox.Txn) error { return t.Truncate("FOO") }) }()
+	}
 	for _, p := range []string{"/s/a", "/s/ab", "/p/{id}/c/*{rest}", "h.com/s/a", "/q/{x}/"} {
 		r.MustHandle("GET", p, h)
 	}
@@ -418,7 +426,7 @@ func main() {
 		if i < 2 {
 			// a router nobody has written to yet, and one whose routes were all removed: requests are answered (404) from
 			// the published empty tree, they do not wait for the first routes to be committed
-			variants = append(variants, variant{config{cfg.name + "/never-written", cfg.opts}, "never-written"}, variant{config{cfg.name + "/truncated", cfg.opts}, "truncated"}, variant{config{cfg.name + "/shallow", cfg.opts}, "shallow"})
+			variants = append(variants, variant{config{cfg.name + "/never-written", cfg.opts}, "never-written"}, variant{config{cfg.name + "/truncated", cfg.opts}, "truncated"}, variant{config{cfg.name + "/shallow", cfg.opts}, "shallow"}, variant{config{cfg.name + "/verb-truncated", cfg.opts}, "verb-truncated"})
 		}
 	}
 	for _, vr := range variants {
@@ -440,13 +448,14 @@ func main() {
 				_, _ = r.Handle("GET", "/w/second", func(fox.Context) {})
 				close(second)
 			}()
+			released := false
 			for _, e := range ents {
 				if proven[e.name] {
 					continue
 				}
 				id := fmt.Sprintf("%s|%s|%s", e.name, stage, cfg.name)
 				var n atomic.Int64
-				ok := kit.Completes(8*time.Second, func() {
+				ok, done := kit.CompletesCh(8*time.Second, func() {
 					defer func() {
 						if p := recover(); p != nil {
 							run.Violate("panic|"+id, fmt.Sprintf("read entry point %q panicked while a writer was parked at %s (config %s): %v", e.name, stage, cfg.name, p), map[string]string{"entry": e.name, "stage": stage, "config": cfg.name})
@@ -465,11 +474,37 @@ func main() {
 						proven[e.name] = true
 						run.Violate("blocked|"+id, fmt.Sprintf("read entry point %q does not complete while a write transaction is parked at stage %s (config %s): its goroutine waits on a lock/channel inside fox\n%s", e.name, stage, cfg.name, kit.TrimStack(g)),
 							map[string]string{"entry": e.name, "stage": stage, "config": cfg.name})
-					} else {
-						run.Inconclusive("%q did not complete within the watchdog at stage %s (config %s) but no goroutine is parked on a lock inside fox", e.name, stage, cfg.name)
+						continue
 					}
-					continue
+					// not parked on anything the classifier knows (it may be polling): the deciding observation is made the
+					// other way round - the writer is let go, and a read that finishes only now was waiting for it
+					select {
+					case <-done:
+						// merely slow (a starved machine): it got there on its own while the writer was still parked
+						run.Count("slow_reads_that_completed_on_their_own", 1)
+						continue
+					case <-time.After(16 * time.Second):
+					}
+					release()
+					released = true
+					select {
+					case <-done:
+						proven[e.name] = true
+						run.Violate("blocked|"+id, fmt.Sprintf("read entry point %q did not complete in %s while a write transaction was parked at stage %s (config %s) and completed as soon as the writer was let go: it waits for the writer without parking on a lock (it spins or polls)", e.name, 24*time.Second, stage, cfg.name),
+							map[string]string{"entry": e.name, "stage": stage, "config": cfg.name})
+					case <-time.After(30 * time.Second):
+						run.Inconclusive("%q did not complete within the watchdog at stage %s (config %s), is not parked on a lock inside fox and did not complete after the writer was released either", e.name, stage, cfg.name)
+					}
+					break
 				}
+			}
+			if released {
+				select {
+				case <-second:
+				case <-time.After(20 * time.Second):
+					run.Inconclusive("queued writer did not finish after release at stage %s", stage)
+				}
+				continue
 			}
 			select {
 			case <-second:
